@@ -87,7 +87,7 @@ func (e *avg) SubMergers(subs []Expr) []SubMerge {
 	matched := false
 	for _, sub := range subs {
 		var sm SubMerge
-		if !matched && e.String() == sub.String() {
+		if !matched && e.String() == sub.String() && e.sameWeight(sub) {
 			// only merge from the first matching sub
 			sm = e.subMerge
 			matched = true
@@ -95,6 +95,14 @@ func (e *avg) SubMergers(subs []Expr) []SubMerge {
 		result = append(result, sm)
 	}
 	return result
+}
+
+// sameWeight checks that sub, whose String() equals ours, also averages using
+// the same weight (String() doesn't include the weight, so AVG(a) and
+// WAVG(a, b) look the same).
+func (e *avg) sameWeight(sub Expr) bool {
+	o, ok := sub.(*avg)
+	return !ok || e.Weight.String() == o.Weight.String()
 }
 
 func (e *avg) subMerge(data []byte, other []byte, otherRes time.Duration, metadata goexpr.Params) {
